@@ -283,9 +283,16 @@ def oracle_hrefresh(case, impl):
     f = case.split(" ")
     dec = lambda t: [] if t == "-" else [unhex(x) for x in t.split(",")]
     n1, n2, pool = dec(f[2]), dec(f[3]), dec(f[4])
-    m = re.match(r"p1=([LU]*) p2=([LU]*)$", impl)
-    if not m or len(m.group(1)) != len(pool) or len(m.group(2)) != len(pool):
+    m = re.match(r"p1=([LU]*) p2=([LU]*) p3=([LU]*)$", impl)
+    if not m or len(m.group(1)) != len(pool) or len(m.group(2)) != len(pool) or len(m.group(3)) != len(pool):
         return "unexpected harness output " + impl[:60]
+    for i, n in enumerate(pool):
+        if f[1] in ("ok", "emfile"):
+            want = "L" if n in n2 else "U"
+            if m.group(3)[i] != want:
+                return ("%r: the hosts file was rewritten%s; one refresh later the name is %s although the file %s it"
+                        % (n, " and could not be opened at the first refresh (out of file descriptors)" if f[1] == "emfile" else "",
+                           "answered locally" if m.group(3)[i] == "L" else "sent upstream", "lists" if n in n2 else "no longer lists"))
     for i, n in enumerate(pool):
         if n in n1 and m.group(1)[i] != "L":
             return "%r is listed in the hosts file but was sent upstream" % n
